@@ -60,6 +60,22 @@ EnvMove ==
             /\ FSend(f, r, s, id, pl, sigs) /\ UNCHANGED mode
             /\ hist' = Append(hist, [ev |-> "FSend", f |-> f, r |-> r, sess |-> s, id |-> id, pl |-> pl,
                                      sigs |-> [i \in 1..Len(sigs) |-> Rec(sigs[i])]])
+  \* REPLAY of an ACCEPTED signature set: the complete list of a message that member r has delivered (its own earlier
+  \* message or an honest member's broadcast, which the faulty member received too) is sent again -- to r with another
+  \* payload, under another id, to r's component of the other session (same / other payload), to another member with
+  \* another payload, and unchanged (own messages only: the unchanged relay of a foreign one is the known finding)
+  \/ \E f \in Faulty, r \in Pick(3, Honest), s \in Sessions :
+       \E d \in Pick(2, {x \in raw[r][s] : Complete(s, x.id, x.pl)}) :
+         LET L == BestList(s, d.id, d.pl)
+             V == {[r |-> r, s |-> s, id |-> d.id, pl |-> p] : p \in Pick(2, Payloads \ {d.pl})}
+                  \cup {[r |-> r, s |-> s, id |-> i2, pl |-> d.pl] : i2 \in Ids \ {d.id}}
+                  \cup {[r |-> r, s |-> s2, id |-> d.id, pl |-> p] : s2 \in Sessions \ {s}, p \in {d.pl} \cup Pick(1, Payloads \ {d.pl})}
+                  \cup {[r |-> r2, s |-> s, id |-> d.id, pl |-> p] : r2 \in Pick(1, Honest \ {r}), p \in Pick(1, Payloads \ {d.pl})}
+                  \cup (IF d.from \in Faulty THEN {[r |-> r, s |-> s, id |-> d.id, pl |-> d.pl]} ELSE {}) IN
+         \E v \in V :
+           /\ FSend(f, v.r, v.s, v.id, v.pl, L) /\ UNCHANGED mode
+           /\ hist' = Append(hist, [ev |-> "FSend", f |-> f, r |-> v.r, sess |-> v.s, id |-> v.id, pl |-> v.pl,
+                                    sigs |-> [i \in 1..Len(L) |-> Rec(L[i])]])
 \* (the last step is a single deterministic one, so that simulation prints each behaviour once)
 GenNext ==
   IF SomeActive
